@@ -1,11 +1,10 @@
 #!/bin/sh
-# usage: tools/try_mutant.sh <patch.diff> <property-id> [tier]   -- apply to /repo, run check, always revert
+# usage: tools/try_mutant.sh <patch.diff> <property-id> [tier]
+# apply the change in a scratch worktree of /repo's HEAD (never in /repo), run the check against it, remove the worktree
 P="$1"; ID="$2"; T="${3:-quick}"
-cd /repo || exit 2
-if ! git diff --quiet; then echo "repo dirty"; exit 2; fi
-git apply "$P" || { echo "patch does not apply"; exit 3; }
-cd /verif && ./check "$ID" "$T" 2>&1 | tail -12
-rc=$?
-git -C /repo checkout -- .
-git -C /repo status --short | head -3
+WT=/tmp/try_mutant_$$
+git -C /repo worktree add --detach $WT HEAD -q || exit 2
+git -C $WT apply "$P" || { echo "patch does not apply"; git -C /repo worktree remove --force $WT; exit 3; }
+cd /verif && VERIF_REPO=$WT ./check "$ID" "$T" 2>&1 | tail -12
+git -C /repo worktree remove --force $WT
 exit 0
